@@ -5,7 +5,8 @@
  * (+ strdup under CBMC only; natively the real strdup/free run under ASan).
  *
  * Calendar: proleptic Gregorian, no leap seconds (POSIX), years M14_YLO..M14_YHI.
- *   forward  m14_days_from_civil(): closed form, only multiply/shift/add (n/100 == n*5243>>19)
+ *   forward  m14_days_from_civil()/m14_secs_from_civil(): closed form, only multiply/shift/add (n/100 == n*5243>>19),
+ *            linear in mday/hour/minute/second like mktime's normalisation; the month term is memoised (pure cache)
  *   inverse  m14_civil_from_secs(): under CBMC RELATIONAL (nondet fields + assume forward(fields) == t) plus one
  *            harness-registered lemma instance (m14_hint_civil, justified by injectivity of the forward function);
  *            natively an independent closed-form inverse.  Cross-checked natively against glibc and
@@ -13,6 +14,7 @@
  * TZ environment: abstract cell {UNSET, AMBIENT, UTC, NAMED}; every id has a fixed offset
  *   M14.off[id] (seconds east, symbolic, chosen by the harness).  `active` = zone libc converts with
  *   (updated by tzset() and, as POSIX requires, implicitly by mktime(); NOT by localtime_r()).
+ * Ghost state for the harnesses: log of every mktime()/timegm() call (fields, zone id, secs_from_civil(fields)).
  * Failure injection: setenv("TZ", v) with v != ambient string fails when bit k of setenv_fail_mask is
  *   set for the k-th such call (EINVAL/ENOMEM); setenv("TZ", <ambient string>) = the restore, never fails;
  *   mktime fails (-1, EOVERFLOW) when bit k of mktime_fail_mask is set for the k-th call;
@@ -44,6 +46,7 @@ struct m14_state {
   int64_t now;                  /* value returned by time(); -1 = time() fails */
   uint8_t setenv_fail_mask;
   uint8_t mktime_fail_mask;
+  const char *named_tz;         /* optional: a string object the harness vouches to denote the NAMED zone (identity shortcut) */
   /* state */
   int cell;                     /* TZ environment variable (abstract id) */
   int active;                   /* zone in effect inside libc */
